@@ -608,3 +608,29 @@ pub fn flatten_program(p: &Program) -> Result<Vec<FlatRule>, String> {
     }
     Ok(out)
 }
+
+/// Inheritance of member predicates along morphisms, spelled out as ordinary rules (C17):
+/// `p(a, x..) & dom(h) = a & cod(h) = b  =>  p(b, x..)`.
+pub fn inheritance_rules(p: &Program) -> Vec<FlatRule> {
+    let mut out = Vec::new();
+    for r in 0..p.rels.len() {
+        let m = match p.rels[r].kind {
+            RelKind::Member(m) => m,
+            _ => continue,
+        };
+        let dom = (0..p.rels.len()).find(|&x| p.rels[x].kind == RelKind::Dom(m));
+        let cod = (0..p.rels.len()).find(|&x| p.rels[x].kind == RelKind::Cod(m));
+        let (dom, cod) = match (dom, cod) {
+            (Some(d), Some(c)) => (d, c),
+            _ => continue,
+        };
+        let n = p.rels[r].cols.len();
+        // flat variables: 0 = a, 1..n = x.., n = h, n+1 = b
+        let mut tuple: Vec<usize> = (0..n).collect();
+        let premise = vec![FAtom::Rel(r, tuple.clone()), FAtom::Rel(dom, vec![n, 0]), FAtom::Rel(cod, vec![n, n + 1])];
+        tuple[0] = n + 1;
+        let concl = FConcl::Rel(r, tuple.iter().map(|&v| CTerm::Var(v)).collect());
+        out.push(FlatRule { rule: usize::MAX, path: 0, stage: 0, nvars: n + 2, premise, concl, n_source_atoms: 3, text: format!("inheritance of {} along morphisms", p.rels[r].name) });
+    }
+    out
+}
